@@ -147,6 +147,27 @@ def check_pure(cx, chk):
             for st in b.blocks[i]["stmts"]:
                 if st["k"] == "assign" and st["rv"]["k"] == "cast" and "Expose" in st["rv"]["kind"]:
                     chk.violation("C16.pure", "%s ptr-to-int" % short(p), "pointer-to-integer cast in code generation", cx.site(b, i))
+    # no state that outlives a call: the output for a grammar must not depend on what the process compiled before
+    INTERIOR = re.compile(r"\b(RefCell|Cell|UnsafeCell|Mutex|RwLock|Atomic\w+|OnceCell|OnceLock|LazyLock|LazyCell|Lazy|Once)\b")
+    n_stat = 0
+    for crate, label in ((cg, "generator"), (getattr(cx, "macro_", None), "macro"), (getattr(cx, "cli", None), "cli")):
+        if crate is None:
+            continue
+        for s_ in crate.j.get("statics", []):
+            n_stat += 1
+            if s_.get("thread_local") or s_.get("mutable") or s_.get("mutability") in ("mut", "Mut") or INTERIOR.search(s_.get("ty", "")):
+                chk.violation("C16.pure", "%s mutable-static %s" % (label, short(s_["path"].split("::{")[0])),
+                              "mutable / thread-local static %s (%s) in the %s: state that survives a call of the code generator makes the code generated "
+                              "for a grammar depend on what was compiled earlier in the same process (build script over a directory, several peginate! "
+                              "invocations) while the command-line tool starts fresh" % (s_["path"], s_.get("ty", "")[:60], label),
+                              "%s:%d" % (s_["span"]["file"], s_["span"]["line"]))
+    for p in sorted(seen):
+        b = cx.body(cg, p)
+        for i in b.reach:
+            for st in b.blocks[i]["stmts"]:
+                if st["k"] == "assign" and st["rv"]["k"] == "tlsref":
+                    chk.violation("C16.pure", "%s thread-local" % short(p), "%s (reachable from code generation) accesses a thread-local" % short(p), cx.site(b, i))
+    chk.ok("C16.pure", "no state outlives a call", {"statics_in_generator_macro_cli": n_stat, "rule": "no thread_local / static mut / static with interior mutability"})
     chk.ok("C16.pure", "reachable functions", {"functions": len(seen), "calls": n})
     chk.floor("C16.pure", "functions reachable from code generation", len(seen), 180)
     # header: depends on its parameter and compile-time constants only
